@@ -62,8 +62,16 @@ func GenCase(p rt.Params, stream string, idx int, bias string) *Case {
 	for try := 0; ; try++ {
 		c.Sel, c.SelKind = gen.DataSelector(r)
 		c.Full = ref.TwoStore(c.DAG.Root, c.Sel, allHas, allHas, 0)
-		// keep selectors the data supports (no selector/data mismatch error) unless we keep failing
-		if (c.Full.Err == nil && len(c.Full.Loads) > 1) || try > 20 {
+		// keep selectors the data supports (no selector/data mismatch error, traversal of bounded size)
+		if c.Full.Err == nil && len(c.Full.Loads) > 1 {
+			break
+		}
+		if try > 0 && try%8 == 0 {
+			// draw a smaller DAG: shared sub-DAGs can make every unbounded traversal explode
+			o.MaxBlocks = 3 + o.MaxBlocks/2
+			c.DAG = gen.GenDAG(r, o)
+		}
+		if try > 60 && c.Full.Err == nil {
 			break
 		}
 	}
